@@ -83,7 +83,8 @@ CONTRACTS = {
             'forall(lambda u: implies(1 <= u and u <= _it + 1, offset[u] == startID + degsum(G.gid, u - 1)), lambda u: offset[u])',
             'forall(lambda i, j: implies(1 <= i and i <= j and j <= _it + 1, offset[i] <= offset[j]))'],
             'hints': ['degsum(G.gid, _it + 1) == degsum(G.gid, _it) + ilen(rnbrs(G.gid, _it + 1))']}},
-        'ensures': BE_INV + ['self.ids_lo == formula._numvar + 1', 'self.G == G'],
+        'modifies': ['self.G'],
+        'ensures': ['self.G == G'] + BE_INV + ['self.ids_lo == formula._numvar + 1'],
     },
     (V, 'BipEdgeVars._unsafe_index_to_lit'): {
         'property': ['C11', 'C10'],
@@ -215,5 +216,62 @@ CONTRACTS.update({
             nb=_INNER.format(vg='BG', u='min(index[0], index[1])'))},
         'ensures': ['iget({}, result - self.BG.offset[min(index[0], index[1])]) == max(index[0], index[1])'.format(_INNER.format(vg='BG', u='min(index[0], index[1])')),
                     'self.BG.ids_lo <= result', 'result < self.BG.ids_hi'],
+    },
+})
+
+
+# ---- the allocators: constructor + registration = a fresh, contiguous group (C10, C11) ---------------------------------------------
+def _alloc(inv_of_result):
+    return [
+        # exactly the first free identifiers ...
+        'result.ids_lo == old(self._formula._numvar) + 1',
+        # ... and the declared variable count of the formula grows by exactly the size of the group (contiguity: nothing skipped)
+        'self._formula._numvar == old(self._formula._numvar) + (result.ids_hi - result.ids_lo)', 'result.ids_hi >= result.ids_lo',
+        # registered exactly once, last
+        'ocount(self._groups) == ocount(old(self._groups)) + 1', 'olast(self._groups) == result',
+    ] + [c.replace('self.', 'result.') for c in inv_of_result]
+
+
+CONTRACTS.update({
+    (G, 'BipV.is_bipartite'): {'assumed': 'class constant: a bipartite graph says so', 'params': {}, 'returns_expr': 'True'},
+    (G, 'BipV.__init__'): {
+        'assumed': 'CompleteBipartiteGraph(n, m): every left vertex 1..n is adjacent to every right vertex 1..m (so u left vertices carry u*m edges)',
+        'params': {'L': 'int', 'R': 'int'}, 'requires': ['L >= 0', 'R >= 0'], 'modifies': ['self.lorder', 'self.rorder', 'self.gid'],
+        'ensures': ['self.lorder == L', 'self.rorder == R',
+                    'forall(lambda u: implies(0 <= u and u <= L, degsum(self.gid, u) == u * R), lambda u: degsum(self.gid, u))',
+                    'forall(lambda u: implies(1 <= u and u <= L, rnbrs(self.gid, u) == apseq(1, R)), lambda u: rnbrs(self.gid, u))']},
+    (V, 'VariablesManager.new_bipartite_edges'): {
+        'property': ['C10', 'C11'],
+        'params': {'self': 'obj:VariablesManager', 'G': 'obj:BipV', 'label': 'opaquestr'},
+        'calls_model': {'BipartiteEdgesVariables': 'BipEdgeVars'},
+        'requires': ['self._formula._numvar >= 0'],
+        'raises': {'ValueError': None},          # only the label check may refuse
+        'returns': 'obj:BipEdgeVars',
+        'ensures': _alloc(BE_INV) + ['result.G == G', 'result.ids_hi - result.ids_lo == degsum(G.gid, G.lorder)'],
+        'ensures_on_raise': ['self._formula._numvar == old(self._formula._numvar)', 'ocount(self._groups) == ocount(old(self._groups))'],
+    },
+    (V, 'VariablesManager.new_sparse_mapping'): {
+        'property': ['C10', 'C11'],
+        # UnaryMappingVariables.__init__ only delegates to BipartiteEdgesVariables.__init__ (read, one line): the same class model
+        'params': {'self': 'obj:VariablesManager', 'B': 'obj:BipV', 'label': 'opaquestr'},
+        'calls_model': {'UnaryMappingVariables': 'BipEdgeVars'},
+        'requires': ['self._formula._numvar >= 0'],
+        'raises': {'ValueError': None},
+        'returns': 'obj:BipEdgeVars',
+        'ensures': _alloc(BE_INV) + ['result.G == B', 'result.ids_hi - result.ids_lo == degsum(B.gid, B.lorder)'],
+        'ensures_on_raise': ['self._formula._numvar == old(self._formula._numvar)', 'ocount(self._groups) == ocount(old(self._groups))'],
+    },
+    (V, 'VariablesManager.new_mapping'): {
+        'property': ['C10', 'C11'],
+        'params': {'self': 'obj:VariablesManager', 'n': 'int', 'm': 'int', 'label': 'opaquestr'},
+        'calls_model': {'UnaryMappingVariables': 'BipEdgeVars', 'CompleteBipartiteGraph': 'BipV'},
+        'requires': ['self._formula._numvar >= 0'],
+        # refused for negative sizes (documented); otherwise only the label check may refuse
+        'raises': {'ValueError': None},
+        'returns': 'obj:BipEdgeVars',
+        # n*m fresh contiguous identifiers: the variable of (u, v) is the (v-1)-th of the block of u
+        'ensures': _alloc(BE_INV) + ['n >= 0', 'm >= 0', 'result.G.lorder == n', 'result.G.rorder == m', 'result.ids_hi - result.ids_lo == n * m',
+                                     'forall(lambda u: implies(1 <= u and u <= n, result.offset[u] == result.ids_lo + (u - 1) * m), lambda u: result.offset[u])'],
+        'ensures_on_raise': ['self._formula._numvar == old(self._formula._numvar)', 'ocount(self._groups) == ocount(old(self._groups))'],
     },
 })
